@@ -184,13 +184,13 @@ PLANS["C20"] = C(
     "eviction triggers through a shared master handle, 1-2 reader threads that take clones, run requests and drop the clone when "
     "done or cancelled); reader results vs reference of the clone's revision, write/drop ordering, cancellation rule, results after "
     "the phase; non-trivial iff a reader was cancelled or a write completed" + ILV,
-    [osrun(640, 16000), tsan(2000)],
+    [osrun(2560, 32000), tsan(2000)],
     {"cancelled_pending_write": 50, "writes_checked": 5000, "thread_results": 10000})
 PLANS["C21"] = C(
     "case = (acyclic or fixpoint program, 2-3 reader threads, a canceller thread firing tokens); Cancelled::Local only with a "
     "preceding unconsumed cancel() of that handle, a cancel between two calls makes the next call unwind, other results vs reference; "
     "non-trivial iff >=1 local cancellation was observed" + ILV,
-    [osrun(640, 16000), tsan(2000)],
+    [osrun(2560, 32000), tsan(2000)],
     {"cancelled_local": 500, "cancels": 5000})
 PLANS["C24"] = C(
     "case = (program with makers, 2-4 threads creating inputs directly, interning, and running makers on their own handles); "
